@@ -179,3 +179,127 @@ def run(chk, n_random):
                               "no-failing-input-found", match=False)
     chk.coverage["patch_correspondence"] = {"runs": n, "outcomes": kinds}
     return n
+
+
+# ---------------------------------------------------------------- isar: <member> elements -> member records
+ISAR_RUNNER = r'''
+import json, re, sys
+import xml.etree.ElementTree as ET
+from prophyc.parsers import isar
+runs = json.load(sys.stdin)
+out = []
+def nm(s):
+    m = re.match(r"^has_m(\d+)$", s)
+    if m: return 1000 + int(m.group(1))
+    m = re.match(r"^numOfM(\d+)$", s)
+    if m: return 2000 + int(m.group(1))
+    m = re.match(r"^m(\d+)_len$", s)
+    if m: return 3000 + int(m.group(1))
+    m = re.match(r"^m(\d+)$", s)
+    if m: return int(m.group(1))
+    m = re.match(r"^s(\d+)$", s)
+    if m: return 4000 + int(m.group(1))
+    raise ValueError(s)
+def tp(s):
+    return 0 if s == "u32" else int(s[1:])
+def sz(s):
+    if s is None: return None
+    v = 1
+    for part in s.split("*"):
+        v *= int(part)
+    return v
+for name, t, optional, attrs, dyn in runs:
+    el = ET.Element("member", {"name": "m%d" % name, "type": "t%d" % t})
+    if optional is not None:
+        el.set("optional", optional)
+    if attrs is not None:
+        ET.SubElement(el, "dimension", attrs)
+    try:
+        ms = isar.make_struct_members(el, dyn)
+        out.append(["ok", [[nm(m.name), tp(m.type_name), None if m.bound is None else nm(m.bound), sz(m.size),
+                            bool(m.greedy), bool(m.optional)] for m in ms]])
+    except Exception as e:
+        out.append(["err", type(e).__name__ + ": " + str(e)[:160]])
+json.dump(out, sys.stdout)
+'''
+
+
+def gen_isar(rng, n):
+    runs = []
+    for _ in range(n):
+        name, t = rng.randrange(1, 9), rng.randrange(1, 6)
+        optional = rng.choice([None, None, "true", "false", "True"])
+        dyn = rng.random() < 0.3
+        if rng.random() < 0.2:
+            runs.append((name, t, optional, None, dyn, None))
+            continue
+        attrs, d = {}, {"size": None, "size2": None, "tiv": False, "vn": None, "iv": False, "vt": None}
+        if rng.random() < 0.75:
+            if rng.random() < 0.12:
+                attrs["size"], d["tiv"] = "THIS_IS_VARIABLE_SIZE_ARRAY", True
+            else:
+                d["size"] = rng.choice([1, 2, 3, 5, 8])
+                attrs["size"] = str(d["size"])
+                if rng.random() < 0.35:
+                    d["size2"] = rng.choice([2, 3, 4])
+                    attrs["size2"] = str(d["size2"])
+        if rng.random() < 0.5:
+            attrs["isVariableSize"], d["iv"] = "true", True
+        if rng.random() < 0.4:
+            k = rng.randrange(1, 5)
+            at = rng.random() < 0.5
+            attrs["variableSizeFieldName"] = ("@s%d" if at else "s%d") % k
+            d["vn"] = (at, 4000 + k)
+        if rng.random() < 0.3:
+            k = rng.randrange(1, 5)
+            attrs["variableSizeFieldType"], d["vt"] = "t%d" % k, k
+        runs.append((name, t, optional, attrs, dyn, d))
+    return runs
+
+
+def dim_coq(d):
+    if d is None:
+        return "None"
+    vn = "None" if d["vn"] is None else "(Some (%s, %d))" % ("true" if d["vn"][0] else "false", d["vn"][1])
+    return ("(Some {| d_size := %s; d_size2 := %s; d_this_is_variable := %s; d_var_name := %s; d_is_variable := %s; d_var_type := %s |})"
+            % (opt(d["size"], True), opt(d["size2"], True), "true" if d["tiv"] else "false", vn,
+               "true" if d["iv"] else "false", opt(d["vt"])))
+
+
+def run_isar(chk, n_random):
+    rng = random.Random(chk.seed + 18)
+    runs = gen_isar(rng, n_random)
+    p = subprocess.run([common.PY, "-c", ISAR_RUNNER], input=json.dumps([r[:5] for r in runs]), capture_output=True, text=True,
+                       env=common.impl_env(), timeout=1200)
+    if p.returncode != 0:
+        chk.violation("isar-runner", {"kind": "could not run prophyc.parsers.isar.make_struct_members", "detail": p.stderr[-800:]},
+                      "no-failing-input-found", match=False)
+        return 0
+    impl = json.loads(p.stdout)
+    work = common.scratch("isarcorr")
+    lines = []
+    for gi, (name, t, optional, attrs, dyn, d) in enumerate(runs):
+        o = impl[gi]
+        if o[0] != "ok":
+            chk.violation("isar-exc-%d" % gi, {"kind": "make_struct_members raised on a well-formed <member>", "member": runs[gi][:5], "observed": o})
+            continue
+        isopt = optional is not None and optional.lower() == "true"
+        lines.append("(%d, isar_case %d %d %s %s %s [%s])" % (gi, name, t, "true" if isopt else "false", dim_coq(d),
+                                                            "true" if dyn else "false", "; ".join(mem_coq(m) for m in o[1])))
+    f = os.path.join(work, "i0.v")
+    with open(f, "w") as fh:
+        fh.write("From Coq Require Import List Arith ZArith.\nFrom Prophy Require Import PcPatch PcIsar CheckLib.\nImport ListNotations.\n")
+        fh.write("Eval vm_compute in [\n%s].\n" % ";\n".join(lines))
+    res = common.coq_eval_many([f])
+    n = 0
+    for gi, flat in res[f][0]:
+        n += 1
+        chk.count()
+        chk.seen_class(("isar", tuple(sorted((runs[gi][3] or {}).keys())), runs[gi][2], runs[gi][4]), True)
+        if list(flat) != []:
+            chk.violation("isarcorr-%d" % gi, {"kind": "model/implementation correspondence broken (isar.make_struct_members vs model/PcIsar.v): "
+                                                       "flags = [94; records in the model; records observed]",
+                                               "member": runs[gi][:5], "observed": impl[gi], "model_flags": list(flat)},
+                          "no-failing-input-found", match=False)
+    chk.coverage["isar_member_correspondence"] = {"members": n}
+    return n
